@@ -105,7 +105,8 @@ skip_array(const uint8_t * buf, const uint8_t * end)
 
 	/* Skip entries until we get to the end. */
 	do {
-		/* Skip a value. */
+		/* Skip optional whitespace and a value. */
+		buf = skip_ws(buf, end);
 		buf = skip_value(buf, end);
 
 		/* Skip optional whitespace. */
